@@ -413,6 +413,18 @@ fn w_current_point_after_close() -> bool {
     curves != vec![(0.0, 0.0), (5.0, 6.0)]
 }
 
+fn w_length_in_objstm() -> bool {
+    use pdf::file::FileOptions;
+    use pdf::object::*;
+    // stream 7 has /Length 4 0 R, and 4 0 obj lives in object stream 5
+    let data = mkpdf_objstm(&[(1, CATALOG), (2, PAGES), (3, PAGE), (7, "<< /Length 4 0 R >>\nstream\nabc\nendstream")], 5, &[(4, "3")], 8);
+    let file = FileOptions::uncached().load(data).unwrap();
+    let r = file.resolver();
+    let s = r.resolve(PlainRef { id: 7, gen: 0 }).map(|p| format!("{:?}", p).chars().take(40).collect::<String>()).map_err(|e| e.to_string().chars().take(90).collect::<String>());
+    println!("stream whose /Length is stored in an object stream -> {:?}", s);
+    s.is_err()
+}
+
 fn main() {
     let all: Vec<(&str, fn() -> bool)> = vec![
         ("lzw_predictor", w_lzw_predictor),
@@ -432,6 +444,7 @@ fn main() {
         ("name_escape", w_name_escape),
         ("string_eol", w_string_eol),
         ("current_point_after_close", w_current_point_after_close),
+        ("length_in_objstm", w_length_in_objstm),
     ];
     let want: Vec<String> = std::env::args().skip(1).collect();
     for (n, f) in all {
